@@ -356,6 +356,53 @@ pub fn near_miss_unit(ctx: &Ctx, rng: &mut Rng, o: &mut Out) {
           }
         }
       }
+      // ellipsis followed by a hole: `f($$$W, $_)`, `f($$$, $V, c)` … The hole after the ellipsis
+      // must still bind a node (only unnamed punctuation written after `$$$` is never compared);
+      // tried on the node itself and on other nodes of its kind — in particular on ones with
+      // FEWER children, where nothing is left for the hole
+      let eh = if ctx.thorough { 30 } else { 12 };
+      for _ in 0..eh {
+        let pn = rng.pick(&named);
+        let inner: Vec<N> = pn.dfs().filter(|p| p.children().filter(|k| k.is_named()).count() >= 2 && p.range().len() <= 300).take(40).collect();
+        if inner.is_empty() {
+          continue;
+        }
+        let par = rng.pick(&inner).clone();
+        let kids: Vec<N> = par.children().filter(|k| k.is_named() && k.range().len() > 0).collect();
+        if kids.len() < 2 {
+          continue;
+        }
+        let k = 1 + rng.below(kids.len() - 1); // the child that becomes the hole; kids[0..k] become `$$$`
+        let (ps, pe) = (par.range().start, par.range().end);
+        let hole = *rng.pick(&["$_", "$V1", "$$V1", "$_X", "$$_"]);
+        let ell = *rng.pick(&["$$$W", "$$$"]);
+        let mut text = String::new();
+        text.push_str(&src.text[ps..kids[0].range().start]);
+        text.push_str(ell);
+        text.push_str(&src.text[kids[k - 1].range().end..kids[k].range().start]);
+        text.push_str(hole);
+        text.push_str(&src.text[kids[k].range().end..pe]);
+        let Ok(pat) = Pattern::try_new(&text, src.lang) else { continue };
+        let pd = treedump::dump_pattern(&pat.node);
+        o.op("pattern_wf", json!({"p": pd}), json!(pattern_wf(&pat.node)));
+        let mut cands: Vec<N> = all.iter().filter(|c| c.kind_id() == par.kind_id()).take(10).cloned().collect();
+        cands.push(par.clone());
+        for c in &cands {
+          for (sn, mk2) in STRICT {
+            let p = pat.clone().with_strictness(mk2());
+            let r = run_match(&p, c, &ids);
+            let matched = r["m"] == json!(true);
+            o.op("match", json!({"t": tid, "node": ids.of(c), "p": pd, "s": sn}), r);
+            if matched {
+              o.op(
+                "oracle:aligns",
+                json!({"t": tid, "node": ids.of(c), "p": pd, "s": sn, "fp": format!("unjustified match strictness={sn}"), "pattern": text, "lang": src.lang.to_string()}),
+                json!(true),
+              );
+            }
+          }
+        }
+      }
       for _ in 0..pats_per_src {
         let pn = rng.pick(&named);
         let holes = if rng.chance(1, 3) { vec![] } else { choose_holes(pn, rng, &ids, true) };
